@@ -17,15 +17,15 @@ func init() {
 		run: runC10,
 		explanation: "The lexer is a single cursor; its discipline is decided by a byte-set abstract interpretation (forward dataflow over 256-bit sets for the current and look-ahead byte, refined by comparisons and by the package's byte predicates folded over all 256 values, one context per constant delimiter) plus SSA shape rules: " +
 			"R10.1 every index, slice, map write, dynamic call, type assertion, division and panic of package lexer is enumerated and discharged (input indexed only under the `readPosition >= len(input)` test; slices input[a:position] with `a` an earlier load of position and the cursor capped and monotone by R10.9; maps allocated by the constructor; the chain field never nil); " +
-			"R10.3 every token's Start is the cursor position read before any advance since the dispatcher was entered; " +
+			"R10.3 every token's Start is the cursor position read before any advance since the dispatcher was entered, and its End is read from the cursor's Line and Column where the token is built; " +
 			"R10.4 identifier/number literals are input[entry position : current position], the identifier's type is the keyword lookup of that same string; " +
 			"R10.5 the keyword lookup returns the table's value on a hit and IDENT otherwise; every keyword is spelled with identifier bytes and its type is produced by no fixed lexeme; " +
-			"R10.6 the after-newline flag is cleared on entry of the trivia skipper and set before every advance over a byte that may be '\\n' (tracked per byte value) — or the line break is reported by a private helper through a bool that is true whenever it happened, and the flag is set from that report before the skipper returns —, only the skipper and its private helpers write it, no computed value is stored into it once it may have been set, and every token constructor copies it and a fresh copy of the trivia list; " +
+			"R10.6 the after-newline flag is cleared on entry of the trivia skipper and set before every advance over a byte that may be '\\n' (tracked per byte value) — or the line break is reported by a private helper through a bool that is true whenever it happened, and the flag is set from that report before the skipper returns —, only the skipper and its private helpers write it, `true` is stored only where the byte under the cursor is a line break (or a helper's report of one is settled), no computed value is stored into it once it may have been set, and every token constructor copies it and a fresh copy of the trivia list; " +
 			"R10.7 tiling: the skipper only advances over whitespace or inside a `//` comment; every dispatcher path consumes exactly the bytes of the token it builds (fixed lexemes: #advances = length and literal = lexeme; slice scanners: no trailing advance; delimited scanners: one trailing advance); " +
 			"R10.8 termination: no feasible cycle without an advance, and no feasible cycle at all once the cursor sits at end of input; " +
 			"R10.9 end of input is a fixed point of the advance primitive (position, line and column stop growing) and the end-of-input token is decided by position, not by the byte value 0. " +
 			"Not decided: exactness of End beyond 'cursor at construction'; columns count bytes, not characters.",
-		notDecided: []string{"exact End position of every token", "character (not byte) columns", "behaviour of user token interceptors"},
+		notDecided: []string{"that the cursor position at construction is the token's last byte + 1 for every token (End is only shown to be the cursor at construction)", "character (not byte) columns", "behaviour of user token interceptors"},
 	})
 }
 
@@ -961,6 +961,11 @@ type startSrc struct {
 }
 
 func tokenCtorStart(f *ssa.Function, la *lexAnchors) startSrc {
+	return tokenCtorPos(f, la, "Start")
+}
+
+// tokenCtorPos: where the Line/Column of the token's position field `which` (Start / End) come from.
+func tokenCtorPos(f *ssa.Function, la *lexAnchors, which string) startSrc {
 	var out startSrc
 	// Start is stored from a Position value: either a complit cell with Line/Column stores, or a direct struct
 	var lineV, colV ssa.Value
@@ -970,7 +975,7 @@ func tokenCtorStart(f *ssa.Function, la *lexAnchors) startSrc {
 			return
 		}
 		fa, ok := st.Addr.(*ssa.FieldAddr)
-		if !ok || !namedIs(fa.X.Type(), "token", "Token") || fieldOfAddr(fa).Name() != "Start" {
+		if !ok || !namedIs(fa.X.Type(), "token", "Token") || fieldOfAddr(fa).Name() != which {
 			return
 		}
 		// value: load of a Position cell
@@ -1005,7 +1010,7 @@ func tokenCtorStart(f *ssa.Function, la *lexAnchors) startSrc {
 			return
 		}
 		outer, ok := fa.X.(*ssa.FieldAddr)
-		if !ok || !namedIs(outer.X.Type(), "token", "Token") || fieldOfAddr(outer).Name() != "Start" {
+		if !ok || !namedIs(outer.X.Type(), "token", "Token") || fieldOfAddr(outer).Name() != which {
 			return
 		}
 		switch fieldOfAddr(fa).Name() {
@@ -1031,7 +1036,40 @@ func tokenCtorStart(f *ssa.Function, la *lexAnchors) startSrc {
 	return out
 }
 
+// endPositions: a token's End is the cursor position at the moment the token is built (Line and Column read from the
+// cursor fields in the constructor): the error ranges of C11 and every consumer of token ranges rely on it.
+func endPositions(c *Ctx, la *lexAnchors) {
+	n := 0
+	for _, f := range c.libFunctions("lexer") {
+		storesEnd := false
+		allInstrs(f, func(_ *ssa.BasicBlock, _ int, in ssa.Instruction) {
+			if st, ok := in.(*ssa.Store); ok {
+				for addr := st.Addr; ; {
+					fa, ok := addr.(*ssa.FieldAddr)
+					if !ok {
+						break
+					}
+					if namedIs(fa.X.Type(), "token", "Token") && fieldOfAddr(fa).Name() == "End" {
+						storesEnd = true
+					}
+					addr = fa.X
+				}
+			}
+		})
+		if !storesEnd {
+			continue
+		}
+		n++
+		src := tokenCtorPos(f, la, "End")
+		c.check(src.ok && src.fromFields, fnName(f)+": End is the cursor position at construction", f.Pos(), "End.Line and End.Column are read from the cursor's Line and Column", "the token's End is not {cursor line, cursor column} at construction (a start value, a swapped or a constant component): a token that spans a line break, or every token, reports a wrong end — error ranges and consumers of token ranges are off")
+	}
+	if n == 0 {
+		c.unres("token End", token.NoPos, "no lexer function stores a token's End")
+	}
+}
+
 func r10_3(c *Ctx, lf *lexFacts, la *lexAnchors) {
+	endPositions(c, la)
 	// every way the dispatcher returns a token (walk per first byte, lexpaths.go): the Line and Column stored in the
 	// token's Start were read from the cursor before the path advanced at all — whatever helpers or constructors the
 	// values then travelled through
@@ -1474,6 +1512,38 @@ func r10_6(c *Ctx, lf *lexFacts) {
 				n++
 				key := fmt.Sprintf("%s: value other than true stored into the after-newline flag #%d", skf.Name(), n)
 				c.check(!cx.flagOver[st], key, st.Pos(), "the flag cannot have been set before on this path", "a value other than true is assigned to the after-newline flag although the flag may already have been set in this gap: an earlier line break is forgotten when the value is false (assign only true, or OR the value in)")
+			}
+		}
+	}
+	// … and only then: where `true` is stored, the byte under the cursor is a line break (or the store settles a
+	// helper's report of one) — otherwise a token that does not follow a line break is marked as if it did
+	// (`a // c` at the end of the input, a NUL byte ending a comment)
+	for _, skf := range lf.skipperFns() {
+		for ci, cx := range lf.contextsOf(skf) {
+			n := 0
+			var sts []*ssa.Store
+			allInstrs(skf, func(_ *ssa.BasicBlock, _ int, in ssa.Instruction) {
+				if st, ok := in.(*ssa.Store); ok && isTrueConst(st.Val) {
+					if _, ok := isFieldAddr(st.Addr, lf.nlFlag); ok {
+						sts = append(sts, st)
+					}
+				}
+			})
+			for _, st := range sts {
+				n++
+				key := fmt.Sprintf("%s: after-newline flag set #%d only at a line break", skf.Name(), n)
+				if ci > 0 {
+					key += fmt.Sprintf(" (context %d)", ci+1)
+				}
+				bs := cx.before[st]
+				switch {
+				case bs == nil || !bs.live:
+					c.info(key+" unreachable", st.Pos(), "not reached by the analysis")
+				case bs.wdebt || bs.debt:
+					c.ok(key, st.Pos(), "settles a line break a helper advanced over and reported")
+				default:
+					c.check(bs.cur.minus(setOf('\n')).empty(), key, st.Pos(), "the byte under the cursor is a line break here", fmt.Sprintf("the flag is set while the byte under the cursor may be %s: a token that does not follow a line break is marked as following one (automatic semicolon insertion then splits a statement, and the printer moves code to a new line)", bs.cur.minus(setOf('\n'))))
+				}
 			}
 		}
 	}
